@@ -238,14 +238,19 @@ func (qc QuorumCert) ToBytes() []byte {
 	b := qc.view.ToBytes()
 	b = append(b, qc.hash[:]...)
 	if qc.signature != nil {
-		b = append(b, qc.signature.ToBytes()...)
-		// the signers are part of the certificate: the bytes of the signature alone do not say who signed
-		// (their number comes first, which also tells a signature without signers from no signature)
+		// Everything that tells two signatures apart is part of the certificate, each piece where a reader
+		// going from left to right can tell where it ends: the kind of signature, the number of signers
+		// (which also tells a signature without signers from no signature), who they are, and the
+		// signature's own bytes (the bytes alone do not say who signed, nor under which scheme).
+		kind := fmt.Sprintf("%T", qc.signature)
+		b = binary.LittleEndian.AppendUint32(b, uint32(len(kind)))
+		b = append(b, kind...)
 		signers := qc.signature.Participants()
 		b = binary.LittleEndian.AppendUint32(b, uint32(signers.Len()))
 		signers.ForEach(func(id ID) {
 			b = binary.LittleEndian.AppendUint32(b, uint32(id))
 		})
+		b = append(b, qc.signature.ToBytes()...)
 	}
 	return b
 }
